@@ -334,6 +334,36 @@ func ruleRowCache(p *Prog, r *Result) {
 			}
 		}
 	}
+	// the projection starts every Next/Batch with a clean context: a plain Clear(ctx) call dominates the
+	// child fetch (the chunk cache accumulates inside the context and is re-indexed per call)
+	if pt := p.Named("ProjectionPlan"); pt != nil {
+		for _, mn := range []string{"Next", "Batch"} {
+			fn := p.Method(pt, mn)
+			if fn == nil {
+				continue
+			}
+			var fetch ssa.Instruction
+			allInstrs(fn, func(in ssa.Instruction) {
+				if c, ok := in.(*ssa.Call); ok && c.Call.IsInvoke() && typeName(c.Call.Value.Type()) == "Plan" && (c.Call.Method.Name() == "Next" || c.Call.Method.Name() == "Batch") {
+					fetch = in
+				}
+			})
+			if fetch == nil {
+				r.hit("ProjectionPlan."+mn+"|fetch", p.Pos(fn.Pos()), "no child fetch found")
+				continue
+			}
+			ctx := ssa.Value(fn.Params[1])
+			okv := false
+			allInstrs(fn, func(in ssa.Instruction) {
+				if isClearOn(in, ctx) && instrDominates(in, fetch) {
+					okv = true
+				}
+			})
+			r.add(okv, "ProjectionPlan."+mn+"|clear-first", p.InstrPos(fetch), "the projection clears the context (a plain call, on every path) before fetching from its child")
+		}
+	} else {
+		r.undecided("anchor: ProjectionPlan not found")
+	}
 	r.note("loops_examined", nLoops)
 	r.floor("calls handing loop-variant rows and a context to cache-touching code", nCalls, 4)
 }
